@@ -326,7 +326,8 @@ func gsub(t *rt.Thread, c *rt.GoCont) (rt.Cont, error) {
 	// is achieved by keeping the variable sj the same until bytes are written
 	// in the string builder.
 	for ; matchCount != n; matchCount++ {
-		captures, usedCPU := pat.Match(string(s), si, t.UnusedCPU())
+		// MatchFromStart honours a '^' anchor (Match does not).
+		captures, usedCPU := pat.MatchFromStart(string(s), si, t.UnusedCPU())
 		t.RequireCPU(usedCPU)
 		if len(captures) == 0 {
 			break
@@ -347,6 +348,11 @@ func gsub(t *rt.Thread, c *rt.GoCont) (rt.Cont, error) {
 				sj = end
 				replaced = true
 			}
+		}
+		if pat.StartAnchored() {
+			// An anchored pattern can only match once, at the start.
+			matchCount++
+			break
 		}
 		allowEmpty = start >= end
 		if allowEmpty {
